@@ -236,14 +236,16 @@ Definition json_all_ref (v : jv) : option lbls :=
 (* ---------------------------------------------------------------------------------------------------------------- *)
 (* the logfmt stage (planner_parser_logfmt.go HandleLogfmt) over the (key, value) pairs the decoder kr/logfmt hands to it,
    in line order: without parameters every pair is assigned under the sanitised key; with parameters `label="key"`
-   (ParserPlanner.Process: logfmtFields[first part of the path, when it is a key] = label, one Go map: a later parameter
-   with the same key replaces the earlier one) only the named keys are assigned, under their labels *)
+   (ParserPlanner.Process: logfmtFields[first part of the path, when it is a key] holds every label that names the key,
+   in parameter order -- since the repair logfmt-two-labels-one-key; it was one label per key, the last parameter winning)
+   only the named keys are assigned, under each of their labels *)
 Definition logfmt_all (pairs : list (string * string)) : lbls :=
   fold_left (fun m kv => lset m (sanitize (fst kv)) (snd kv)) pairs [].
-Definition field_of (params : list ahead) (key : string) : string :=
-  fold_left (fun l a => match snd a with PKey k :: _ => if String.eqb k key then fst a else l | _ => l end) params EmptyString.
+Definition fields_of (params : list ahead) (key : string) : list string :=
+  flat_map (fun a => match snd a with PKey k :: _ => if String.eqb k key then [fst a] else [] | _ => [] end) params.
 Definition logfmt_fields (params : list ahead) (pairs : list (string * string)) : lbls :=
-  fold_left (fun m kv => let l := field_of params (fst kv) in if String.eqb l EmptyString then m else lset m l (snd kv)) pairs [].
+  fold_left (fun m kv => fold_left (fun m' l => if String.eqb l EmptyString then m' else lset m' l (snd kv))
+                                   (fields_of params (fst kv)) m) pairs [].
 (* the definition: names by value *)
 Definition logfmt_all_ref (pairs : list (string * string)) : lbls :=
   fold_left (fun m kv => lset m (label_name (fst kv)) (snd kv)) pairs [].
@@ -298,8 +300,8 @@ Definition logfmt_decode (params : list ahead) (pairs : option (list (string * s
 Definition logfmt_mismatches (cs : list lcase) : list Z :=
   map l_id (filter (fun c => negb (lbls_eqb (logfmt_decode (l_params c) (l_pairs c)) (l_obs c))) cs).
 (* specification: without parameters the observed map is logfmt_all_ref (names by value); with parameters whose names are
-   distinct, whose paths are one key each and whose keys are distinct: every label holds the value of the last pair of its
-   key, and nothing else is assigned *)
+   distinct and whose paths are one key each (two labels may name the SAME key: each is extracted on its own, as in LogQL):
+   every label holds the value of the last pair of its key, and nothing else is assigned *)
 Definition single_key (a : ahead) : option string := match snd a with [PKey k] => Some k | _ => None end.
 Definition l_spec_violation (c : lcase) : bool :=
   match l_pairs c with
@@ -308,8 +310,7 @@ Definition l_spec_violation (c : lcase) : bool :=
     match l_params c with
     | [] => negb (lbls_eqb (logfmt_all_ref pairs) (l_obs c))
     | ps =>
-      if forallb (fun a => match single_key a with Some _ => true | None => false end) ps
-         && nodup_str (map fst ps) && nodup_str (map (fun a => match single_key a with Some k => k | None => EmptyString end) ps)
+      if forallb (fun a => match single_key a with Some _ => true | None => false end) ps && nodup_str (map fst ps)
       then negb (forallb (fun a => match single_key a with
                                    | Some k => match logfmt_lookup pairs k with
                                                | Some s => String.eqb (lget (l_obs c) (fst a)) s && mem_str (fst a) (map fst (l_obs c))
